@@ -37,7 +37,7 @@ theorem C02_newest_wins_checked {whole : History} {objs : List (Nat × Nat × Na
 history: two levels suffice (object streams are stored directly). -/
 theorem C02_getobj_fuel {whole : History} {objs : List (Nat × Nat × Nat × Val)} {secs : List Section}
     (h : Rep whole objs secs whole) (f n : Nat) :
-    getobjF objs secs (f + 2) n = getobjF objs secs 2 n := by
+    getobjF objs secs (f + 2) [] n = getobjF objs secs 2 [] n := by
   rw [getobjF_spec h f n, getobjF_spec h 0 n]
 
 /-- Catalog and Info are the newest revision's Root / Info objects, resolved newest-first. -/
@@ -103,9 +103,9 @@ theorem C02_xrefstm_entry (ranges : List (Nat × Nat)) (w1 w2 w3 : Nat) (rows : 
 /-- `get_objids` (repaired: running row index) reports exactly the numbers whose row is of type
 1 or 2, range by range — the in-use numbers of the section. -/
 theorem C02_xrefstm_objids (ranges : List (Nat × Nat)) (w1 w2 w3 : Nat) (rows : List Row)
-    (hf : ∀ r ∈ rows, FitsRow w1 w2 w3 r) (hlen : sumCounts ranges ≤ rows.length) :
+    (hf : ∀ r ∈ rows, FitsRow w1 w2 w3 r) (hpos : 0 < w1 + w2 + w3) (hlen : sumCounts ranges ≤ rows.length) :
     (XStream.mk ranges w1 w2 w3 (encodeRows w1 w2 w3 rows)).getObjids = objidsSpec ranges rows := by
-  have := objidsAux_spec ranges w1 w2 w3 rows hf ranges 0 (by omega)
+  have := objidsAux_spec ranges w1 w2 w3 rows hf hpos ranges 0 (by omega)
   simpa [XStream.getObjids] using this
 
 /-- The pinned `get_objids` (row index restarted per range) is wrong on `Index [0 1 5 2]` with a
@@ -151,8 +151,12 @@ theorem C02_objstm_index (n index : Nat) : objstmIndex n index = 2 * n + index :
 `/Index` default `[0 Size]`, and both readers of the type field agree. -/
 theorem C02_defaults (size : Nat) :
     typeDefault = 1 ∧ field2Default = 0 ∧ field3Default = 0 ∧ objidsTypeDefault = typeDefault ∧
-    defaultIndex size = [0, size] := by
-  refine ⟨rfl, rfl, rfl, rfl, rfl⟩
+    defaultIndex size = [0, size] ∧ widthsArity = 3 ∧
+    (∀ a b c, zeroLengthRows a b c = true ↔ a + b + c = 0) ∧
+    (∀ off len, rowInData off len = true ↔ off < len) := by
+  refine ⟨rfl, rfl, rfl, rfl, rfl, rfl, ?_, ?_⟩
+  · intro a b c; simp [zeroLengthRows]
+  · intro off len; simp [rowInData]
 
 /-- Keywords and field shapes of the classic table, and the chaining order (7.5.8.4: the
 table of a hybrid file is consulted first, then its `XRefStm`, then `Prev`). -/
@@ -202,27 +206,31 @@ theorem flatten_even (ranges : List (Nat × Nat)) : (flattenRanges ranges).lengt
 `/W [w1 w2 w3]`, `/Index` (any number of ranges) and the encoded rows give back the written rows,
 end to end. -/
 theorem C02_stream_load (size : Nat) (ranges : List (Nat × Nat)) (w1 w2 w3 : Nat) (rows : List Row)
-    (hf : ∀ r ∈ rows, FitsRow w1 w2 w3 r) (hlen : sumCounts ranges ≤ rows.length) :
+    (hf : ∀ r ∈ rows, FitsRow w1 w2 w3 r) (hpos : 0 < w1 + w2 + w3) (hlen : sumCounts ranges ≤ rows.length) :
     ∃ x, xsLoad size (some (flattenRanges ranges)) [w1, w2, w3] (encodeRows w1 w2 w3 rows) = .ok x ∧
       (∀ n, x.getPos n = (rowSpec ranges rows n).bind specRowEntry) ∧
       x.getObjids = objidsSpec ranges rows := by
   refine ⟨⟨ranges, w1, w2, w3, encodeRows w1 w2 w3 rows⟩, ?_, ?_, ?_⟩
   · have h := flatten_even ranges
-    simp [xsLoad, choplist2_flatten, h]
+    have hz : ¬ (w1 + w2 + w3 = 0) := by omega
+    simp [xsLoad, choplist2_flatten, h, widthsArity, zeroLengthRows]
+    omega
   · intro n
     rw [C02_xrefstm_entry ranges w1 w2 w3 rows hf hlen n]
     congr 1
     funext r
     exact C02_row_types r
-  · exact C02_xrefstm_objids ranges w1 w2 w3 rows hf hlen
+  · exact C02_xrefstm_objids ranges w1 w2 w3 rows hf hpos hlen
 
 /-- Without `/Index` the rows are those of objects `0 … Size-1`. -/
 theorem C02_stream_load_default (size w1 w2 w3 : Nat) (rows : List Row)
-    (hf : ∀ r ∈ rows, FitsRow w1 w2 w3 r) (hlen : size ≤ rows.length) (n : Nat) :
+    (hf : ∀ r ∈ rows, FitsRow w1 w2 w3 r) (hpos : 0 < w1 + w2 + w3) (hlen : size ≤ rows.length) (n : Nat) :
     ∃ x, xsLoad size none [w1, w2, w3] (encodeRows w1 w2 w3 rows) = .ok x ∧
       x.getPos n = (if n < size then rows[n]? else none).bind specRowEntry := by
   refine ⟨⟨[(0, size)], w1, w2, w3, encodeRows w1 w2 w3 rows⟩, ?_, ?_⟩
-  · simp [xsLoad, defaultIndex, choplist2]
+  · have hz : ¬ (w1 + w2 + w3 = 0) := by omega
+    simp [xsLoad, defaultIndex, choplist2, widthsArity, zeroLengthRows]
+    omega
   · rw [C02_xrefstm_entry [(0, size)] w1 w2 w3 rows hf (by simp [sumCounts]; omega) n]
     have : rowEntry = specRowEntry := funext C02_row_types
     rw [this]
